@@ -126,7 +126,7 @@ def run_law(ctx, p):
         elif law == 'div':
             lhs, rhs = X / Y, X * Y.inv()
         elif law == 'pow':
-            lhs = X ** n
+            lhs = X ** (np.int64(n) if p.get('npint') else n)      # an integer is an integer, also when it comes out of NumPy
             rhs = X
             for _ in range(n - 1):
                 rhs = rhs * X
@@ -491,6 +491,8 @@ def run(ctx):
         else:
             k = {'assoc': 3, 'antihom': 2, 'div': 2, 'aug_copy': 2, 'aug_index': 2, 'aug_div': 2}.get(law, 1)
             p = dict(cls=c, law=law, ops=[operand(rng, c) for _ in range(k)], n=n)
+            if law == 'pow' and rng.random() < 0.3:
+                p['npint'] = True
         drive(RUNNERS, ctx, 'law', p)
         if ctx.ncases % 1499 == 1:
             ctx.sample(dict(kind='law', **p))
